@@ -35,6 +35,36 @@ def cycle_groups(errors, kind="Dependency cycle"):
     return groups, other
 
 
+def mentions_of(field):
+    """Names of fields of the same structure that field's location, existence condition, value or
+    type (arguments, array lengths) refer to, read from the IR by a generic walk."""
+    from compiler.util import ir_data_utils
+
+    out = set()
+    own = list(field.name.canonical_name.object_path[:-1])
+    module = field.name.canonical_name.module_file
+
+    def walk(x):
+        if isinstance(x, dict):
+            fr = x.get("field_reference")
+            if isinstance(fr, dict) and fr.get("path"):
+                cn = fr["path"][0].get("canonical_name", {})
+                path = cn.get("object_path", [])
+                if cn.get("module_file", "") == module and path[:-1] == own and path:
+                    out.add(path[-1])
+            for v in x.values():
+                walk(v)
+        elif isinstance(x, list):
+            for v in x:
+                walk(v)
+
+    for part in ("location", "existence_condition", "read_transform", "type"):
+        sub = getattr(field, part, None)
+        if sub is not None:
+            walk(ir_data_utils.IrDataSerializer(sub).to_dict(exclude_none=True))
+    return out
+
+
 def check_struct(stats, rnd, g):
     text, names, kinds, where = DG.struct_program(rnd, g)
     want = set(frozenset(names[v] for v in c) for c in DG.sccs(g))
@@ -77,6 +107,17 @@ def check_struct(stats, rnd, g):
             if position[idx[names[w]]] > position[idx[names[v]]]:
                 stats.fail({"kind": "order-violates-dependency", "via": where[v]}, case, "%s mentions %s but is ordered before it: order=%s" % (names[v], names[w], [fields[i].name.name.text for i in order]))
                 return
+    # the same clause over everything the IR itself mentions, generated fields ($size_in_bytes, ...)
+    # included: whatever a field's location, condition, value or type arguments refer to comes first
+    for i, f in enumerate(fields):
+        for nm in sorted(mentions_of(f)):
+            j = idx.get(nm)
+            if j is not None and j != i and position[j] > position[i]:
+                stats.fail({"kind": "order-violates-dependency", "via": "ir-reference" + ("-generated" if nm.startswith("$") else "")}, case, "%s mentions %s but is ordered before it: order=%s" % (f.name.name.text, nm, [fields[k].name.name.text for k in order]))
+                return
+    if "total" in kinds:
+        stats.classes["reads-own-generated-field"] += 1
+        return  # generated fields are appended to the field list, so the source order is not topological here
     src_topological = all(idx[names[w]] < idx[names[v]] for v in g for w in g[v])
     stats.classes["source-order-topological" if src_topological else "needs-reordering"] += 1
     if src_topological and order != list(range(n_all)):
